@@ -18,9 +18,10 @@ let dispatch fn args = match fn, args with
   | "outPath", [d; i; s] -> hb (attachmentOutputPath (bh d) (n_of_hex i) (bh s))
   | "resPath", [p; t] -> hb (attachmentReservationPath (bh p) (bh t))
   | "writeAttachments", [d; names] ->
-      let ((fs, written), ok) = writeAttachments [] (bh d) (blist_of_string names) (bh "7a") in
-      if ok then "ok:" ^ String.concat "," (List.sort compare (List.map hb fs))
-      else "collision:" ^ String.concat "," (List.sort compare (List.map hb fs))
+      (* 16-character token, like hex.EncodeToString of 8 random bytes *)
+      let ((fs, written), st) = writeAttachments nameTooLong [] (bh d) (blist_of_string names) (bh "30313233343536373839616263646566") in
+      let l = String.concat "," (List.sort compare (List.map hb fs)) in
+      (match int_of_n st with 0 -> "ok:" | 1 -> "collision:" | _ -> "error:") ^ l
   | "imageFileName", [a; b; c; d] -> hb (imageFileName (bh a) (bh b) (bh c) (bh d))
   | "fontFileName", [a; b; c] -> hb (fontFileName (bh a) (bh b) (bh c))
   | "bookmarkFileName", [i; t] -> hb (bookmarkFileName (n_of_hex i) (bh t))
